@@ -727,31 +727,38 @@ def evaluate(ctx, exe, plain, cases, batch_size=40):
     return failures, status_hist
 
 
+def observe(ctx, exe, c, **limits):
+    """run one corpus case alone; returns None (fine: reported error or correct result), a text (what fails),
+       and records 'not judged' when only the wall-clock backstop ended the run"""
+    r, s, _, e = run_proc(exe, [c.line()], single_cpu_limit(True), **limits)
+    f = r.get(c.id)
+    if s == "wall-backstop":
+        ctx.notes.setdefault("not_judged", []).append("not judged: wall-clock backstop under load (corpus %s)" % c.id)
+        return None
+    if f is not None:
+        j = judge(c, f)
+        if j:
+            return j[1]
+        return None if s == "ok" else "answered, then the process ended with %s %s" % (s, report_of(e))
+    return ("%s %s" % (s, report_of(e))).strip()
+
+
 def replay_known(ctx, plain, asan):
-    """re-confirm every known finding on the current tree; returns {key: observed text or None}"""
+    """re-run every stored replay on the current tree; returns {key: observed failure text or None}"""
     cs = corpus_cases()
     for k, c in cs.items():
         c.id = k
     obs = {}
     # K19: unbounded template recursion under a 1.5 GB address-space limit (plain build)
-    r, s, _, e = run_proc(plain, [cs["K19"].line()], 150, limit_as=1500 << 20)
-    f = r.get("K19")
-    if f and f[0] == "exc":
-        obs["K19"] = "escaped exception %s" % f[1]
-    elif s != "ok":
-        obs["K19"] = "process ended with %s %s" % (s, report_of(e))
-    else:
-        obs["K19"] = None
-    # K20: 20000 nested parentheses on a 1 MB stack (100000 on the default 8 MB stack takes 30 s)
-    r, s, _, e = run_proc(plain, [cs["K20"].line()], 120, limit_stack=1 << 20)
-    obs["K20"] = None if (s == "ok" and "K20" in r) else "process ended with %s" % s
-    r, s, _, e = run_proc(plain, [cs["K9"].line()], 60)
-    f = r.get("K9")
-    j = judge(cs["K9"], f) if f else ("crash", s)
-    obs["K9"] = j[1] if j else None
-    for k in ("K-new-1", "K-new-2", "K-new-3", "K-new-4", "K-new-5", "K-new-6"):
-        r, s, _, e = run_proc(asan, [cs[k].line()], 60)
-        obs[k] = None if (s == "ok" and k in r) else "%s %s" % (s, report_of(e))
+    obs["K19"] = observe(ctx, plain, cs["K19"], limit_as=1500 << 20)
+    # K20: 20000 nested parentheses on a 1 MB stack (100000 on the default 8 MB stack need 30 s)
+    obs["K20"] = observe(ctx, plain, cs["K20"], limit_stack=1 << 20)
+    obs["K9"] = observe(ctx, plain, cs["K9"])
+    for k in sorted(cs):
+        if k not in obs:
+            obs[k] = observe(ctx, asan, cs[k])
+            if obs[k] is None and k in ("K-new-2", "K-new-3", "K-new-5", "K-new-6"):
+                obs[k] = observe(ctx, plain, cs[k])      # these end the plain build with SIGSEGV
     return obs
 
 
@@ -841,7 +848,7 @@ def replay(ctx, path):
     core.build_lib("asan")
     exe, ok, log = core.build_harness("safe", "asan")
     lines = [l.strip() for l in open(path) if l.strip() and not l.startswith("#")]
-    res, status, last, err = run_proc(exe, lines, 300)
+    res, status, last, err = run_proc(exe, lines, single_cpu_limit(True))
     print(status, report_of(err))
     for k, v in res.items():
         print(k, "|".join(v)[:300])
